@@ -358,6 +358,11 @@ func famC08(e *emitter, g *gen.G, thorough bool) {
 	for i := 0; i < nr; i++ {
 		vals = append(vals, g.Float64())
 	}
+	for i, v := range []float64{math.NaN(), math.Inf(1), math.Inf(-1), math.Copysign(0, -1), math.Float64frombits(0x7ff0000000000001), math.SmallestNonzeroFloat64} {
+		e.emit(fmt.Sprintf("mapkey/special%d", i), map[float64]int32{v: 1, 2.5: 2})
+		e.emit(fmt.Sprintf("mapkey32/special%d", i), map[float32]string{float32(v): "v"})
+		e.emit(fmt.Sprintf("mapkeyfield/special%d", i), zoo.Conts{MFK: map[float64]string{v: "x"}})
+	}
 	for i, v := range vals {
 		e.emit(fmt.Sprintf("f64/%d", i), v)
 		if i%4 == 0 || thorough {
@@ -367,6 +372,10 @@ func famC08(e *emitter, g *gen.G, thorough bool) {
 			e.emit(fmt.Sprintf("lists/%d", i), &zoo.Slices{F32s: []float32{f32, 1}, F64s: []float64{v}})
 			e.emit(fmt.Sprintf("mapv/%d", i), zoo.Conts{MF: map[string]float64{"a": v}})
 			e.emit(fmt.Sprintf("toplist/%d", i), []float64{v, -v})
+		}
+		if i%8 == 0 { // as a map key (a NaN key cannot be looked up again, a -0 key is the +0 key)
+			e.emit(fmt.Sprintf("mapkey/%d", i), map[float64]int32{v: 1, 2.5: 2})
+			e.emit(fmt.Sprintf("mapkey32/%d", i), map[float32]string{float32(v): "v"})
 		}
 	}
 }
@@ -824,7 +833,8 @@ func famC06(e *emitter, g *gen.G, thorough bool) {
 			long := g.String(2049+g.R.Intn(4200), []int{0, -1, 2}[i/10%3])
 			bin := make([]byte, 4097+g.R.Intn(9000))
 			g.R.Read(bin)
-			vals = append(vals, "\ufffd", long, "next", int32(7), "a\ufffdb", bin, []byte{1}, long[:2048], "x", long[:2049], zoo.HStr{V: long}, "tail")
+			lr := []rune(long)
+			vals = append(vals, "\ufffd", long, "next", int32(7), "a\ufffdb", bin, []byte{1}, string(lr[:2048]), "x", string(lr[:2049]), zoo.HStr{V: long}, "tail")
 		}
 		for j := 0; j < n; j++ {
 			switch c := g.R.Intn(14); {
@@ -1013,6 +1023,11 @@ func famC13(e *emitter, g *gen.G, thorough bool) {
 			}())
 			e.emit("deep/"+nm, []interface{}{map[string]interface{}{"l": []interface{}{zoo.BadInList{L: []interface{}{int32(5), mk()}}}}})
 		}
+		// a field that is not exported cannot be written (the decoder could not set it): an error, no panic
+		e.emit("field/unexported", zoo.NewUnexp(1, 2))
+		e.emit("field/unexportedptr", &[]zoo.Unexp{zoo.NewUnexp(3, 4)}[0])
+		e.emit("field/unexportedlist", []interface{}{int32(1), zoo.NewUnexp(5, 6)})
+		e.emit("field/embeddedhidden", zoo.NewEmbHidden(7))
 		e.emit("field/chan", zoo.BadChan{Ok: 1, C: make(chan int)})
 		e.emit("field/nilchan", zoo.BadChan{Ok: 1})
 		e.emit("field/func", &zoo.BadFunc{Ok: 2, F: func() {}})
